@@ -91,6 +91,8 @@ pub fn run_one<K: MKey, V: MVal>(label: &'static str, rng: &mut Rng, out: &mut R
     let mut log: Vec<String> = vec![format!("[{}] {}", label, cfg.to_text())];
     let mut stamp = 0u64;
     let mut last_err: Option<TryInsertError<K, V>> = None;
+    let mut last_ins_err: Option<InsertError<K, V>> = None;
+    let mut last_mut_err: Option<MutateError<K, V>> = None;
     let size_of = |id: u32, heap: usize| entry_size(&K::mk(id), &V::mk(0, heap));
     for _ in 0..rng.range(10, 120) {
         out.stats.events += 1;
@@ -109,7 +111,7 @@ pub fn run_one<K: MKey, V: MVal>(label: &'static str, rng: &mut Rng, out: &mut R
                 prop = "C10";
                 let es = size_of(id, heap);
                 let r = c.insert(K::mk(id), V::mk(stamp, heap));
-                if let Err(e) = &r { out.stats.count("c10_error_values_inspected"); let mut slot = e.clone(); let same = slot == *e; slot.clone_from(e); if !same || slot != *e || format!("{:?}", slot) != format!("{:?}", e) { bad = Some(format!("copies of the InsertError value differ from it: {:?}", e)); } }
+                if let Err(e) = &r { out.stats.count("c10_error_values_inspected"); let copy = e.clone(); let mut slot = last_ins_err.take().unwrap_or_else(|| e.clone()); slot.clone_from(e); if copy != *e || slot != *e || format!("{:?}", slot) != format!("{:?}", e) { bad = Some(format!("copies of the InsertError value differ from it: {:?} / {:?} vs {:?}", copy, slot, e)); } last_ins_err = Some(copy); }
                 if es > m.max {
                     match r { Err(InsertError::EntryTooLarge { key, value, entry_size, max_size }) => { if key.id() != id || value.stamp() != stamp || entry_size != es || max_size != m.max { bad = Some(format!("EntryTooLarge carries ({:?}, {:?}, {}, {}), expected the pair, {} and {}", key, value, entry_size, max_size, es, m.max)); } } other => bad = Some(format!("entry of size {} > limit {} was not rejected with EntryTooLarge: {:?}", es, m.max, other.map(|o| o.map(|v| v.stamp())).map_err(|_| "other error"))) }
                 } else {
@@ -145,7 +147,7 @@ pub fn run_one<K: MKey, V: MVal>(label: &'static str, rng: &mut Rng, out: &mut R
             4 | 5 | 6 => {
                 prop = "C11";
                 let r = c.mutate(&K::mk(id), |v| { v.set(stamp, heap); stamp });
-                if let Err(e) = &r { out.stats.count("c11_error_values_inspected"); let mut slot = e.clone(); let same = slot == *e; slot.clone_from(e); if !same || slot != *e || format!("{:?}", slot) != format!("{:?}", e) { bad = Some(format!("copies of the MutateError value differ from it: {:?}", e)); } }
+                if let Err(e) = &r { out.stats.count("c11_error_values_inspected"); let copy = e.clone(); let mut slot = last_mut_err.take().unwrap_or_else(|| e.clone()); slot.clone_from(e); if copy != *e || slot != *e || format!("{:?}", slot) != format!("{:?}", e) { bad = Some(format!("copies of the MutateError value differ from it: {:?} / {:?} vs {:?}", copy, slot, e)); } last_mut_err = Some(copy); }
                 match m.pos(id) {
                     None => { if !matches!(r, Ok(None)) { bad = Some("mutate of an absent key did not return Ok(None)".to_string()); } }
                     Some(p) => {
